@@ -687,6 +687,10 @@ impl GraphTensor {
         // Restore edges
         for edge in snapshot.edges {
             let edge_type = &snapshot.edge_types[edge.edge_type_idx as usize];
+            // Keep the identifier the edge was saved with: edge data and callers refer to it.
+            graph
+                .next_edge_id
+                .store(edge.edge_id.as_u64(), Ordering::Relaxed);
             graph.add_edge(edge.from, edge.to, edge_type, edge.directed);
         }
 
